@@ -205,6 +205,8 @@ class TransferOps:
 
         update_timeout = params.get_numeric("update_pool_timeout", 300)
         with image_lock(pool_path, update_timeout) as lock:
+            if not os.path.exists(pool_path):
+                raise FileNotFoundError(f"Cannot download a missing {pool_path}")
             if TransferOps.compare_local(cache_path, pool_path, params):
                 logging.info(f"Skip download of an already available {cache_path}")
                 return
